@@ -42,13 +42,15 @@ class Setup:
         self.basis = c.get("basis", "weight")
         p1, p2 = c.get("P", (1e-2, 1e-4))
         ea = c.get("ea", (25000.0, 60000.0))
+        ea = tuple(tuple(e) if isinstance(e, list) else e for e in ea)  # ("fit", value): the energy is left unstated (regressed)
+        extra = tuple(c.get("extra_temps_offsets", ()))
         self.curve_set = None
         self.init_perm = None
         self.fit_kwargs = {}
         tref = c["tref_abs"] if "tref_abs" in c else self.t0 + c.get("tref_offset", 0.0)
         if self.kind in IDEAL:
             self.membrane = U.make_membrane(self.mixture, p1, p2, t_ref=tref, ea1=ea[0], ea2=ea[1],
-                                            units=c.get("exp_units", U.Units.kg_m2_h_kPa))
+                                            units=c.get("exp_units", U.Units.kg_m2_h_kPa), extra_temps=tuple(tref + o for o in extra))
         else:
             cs = c.get("curves", {"law": "lawA", "temps": [333.15]})
             self.curve_set = U.make_curve_set(self.mixture, law=cs["law"], temps=tuple(cs["temps"]),
